@@ -25,7 +25,9 @@ func TestC02_Known_InconsistentSnapshot(t *testing.T) {
 	if _, err := seedStore(e, stores, [][]int{{2, 10, 13, 14, 16, 17}}); err != nil {
 		t.Fatalf("HARNESS-ERROR %v", err)
 	}
-	op := func(kind string, k int, tag string, size int) txh.Op { return txh.Op{Kind: kind, K: k, Tag: tag, Size: size} }
+	op := func(kind string, k int, tag string, size int) txh.Op {
+		return txh.Op{Kind: kind, K: k, Tag: tag, Size: size}
+	}
 	progs := []txh.TxnProg{
 		{Mode: sop.ForWriting, End: "commit", Ops: []txh.Op{op("addIfNotExist", 7, "w0.4", 0), op("addIfNotExist", 12, "w0.7", 10), op("upsert", 3, "w0.9", 10), op("add", 0, "w0.11", 300), op("add", 9, "w0.12", 10), op("rmw", 16, "w0.1", 10)}},
 		{Mode: sop.ForWriting, End: "commit", Ops: []txh.Op{op("addIfNotExist", 1, "w1.5", 300), op("upsert", 15, "w1.6", 300), op("addIfNotExist", 11, "w1.8", 0), op("add", 5, "w1.10", 10), op("remove", 14, "", 0), op("rmw", 13, "w1.3", 300)}},
@@ -55,4 +57,71 @@ func TestC02_Known_InconsistentSnapshot(t *testing.T) {
 		return
 	}
 	t.Fatalf("%s", what)
+}
+
+// TestC04_Known_MergePassMixture: the same finding inside a commit's refetch-and-merge pass. Writer 2's
+// commit is refused (writer 0 committed first), its merge pass re-reads the tree node by node, writer 1
+// commits a structural change in the middle of that pass, and writer 2 places its key in a leaf it
+// reached through the old root: all three commits succeed and the store scans out of key order.
+func TestC04_Known_MergePassMixture(t *testing.T) {
+	op := func(kind string, k int, tag string, size int) txh.Op {
+		return txh.Op{Kind: kind, K: k, Tag: tag, Size: size}
+	}
+	for gap := 10; gap <= 30; gap++ {
+		e, err := txh.NewEnv(16)
+		if err != nil {
+			t.Fatalf("%v", err)
+		}
+		txh.SeedUUIDs(1)
+		stores := []txh.StoreOpts{{Name: "st0", Slot: 2, Unique: true, Placement: 3, Balancing: true}}
+		models, err := seedStore(e, stores, [][]int{{0}})
+		if err != nil {
+			t.Fatalf("HARNESS-ERROR %v", err)
+		}
+		progs := []txh.TxnProg{
+			{Mode: sop.ForWriting, End: "commit", Ops: []txh.Op{op("add", 12, "w0.2", 10), op("add", 16, "w0.4", 10), op("add", 19, "w0.5", 10), op("upsert", 6, "w0.7", 0), op("add", 7, "w0.9", 10), op("add", 4, "w0.10", 300)}},
+			{Mode: sop.ForWriting, End: "commit", Ops: []txh.Op{op("add", 1, "w1.1", 0), op("add", 9, "w1.3", 10), op("upsert", 18, "w1.6", 10)}},
+			{Mode: sop.ForWriting, End: "commit", Ops: []txh.Op{op("add", 8, "w2.8", 10), op("add", 17, "w2.11", 0)}},
+		}
+		var sched []int
+		rep := func(who, k int) {
+			for j := 0; j < k; j++ {
+				sched = append(sched, who)
+			}
+		}
+		rep(2, 6)
+		rep(0, 400)
+		rep(2, gap)
+		rep(1, 400)
+		res, s := e.RunConcurrent(stores, progs, sched, txh.ConcOpts{Strict: true, MaxTime: 15 * time.Second})
+		want := models[0].Clone()
+		all := !s.TimedOut
+		for _, r := range res {
+			if !r.Committed {
+				all = false
+			}
+			for _, o := range r.Obs {
+				want.Add(o.Op.K, o.Wrote)
+			}
+		}
+		bad := ""
+		if all && s.OthersMutatedRegistryDuringLastMerge(2) {
+			d, err := e.Dump(stores, sop.ForReading)
+			if err != nil {
+				bad = "reader: " + err.Error()
+			} else if why := txh.CheckDump(d, stores, []*txh.Model{want}); why != "" {
+				bad = why
+			}
+		}
+		e.Cleanup()
+		if bad == "" {
+			continue
+		}
+		what := "the same inside a commit: a refused commit re-reads the tree node by node in its refetch-and-merge pass; when another writer commits a structural change in the middle of that pass, the replayed Add lands in a leaf reached through the old root, only that leaf is version-checked, all commits succeed and the store is corrupt: three writers adding disjoint keys (slot length 2), afterwards " + bad
+		if stats.Known("C04", "merge-pass-mixture-commits-misplaced-key") {
+			stats.For("C04").KnownFinding(what)
+			return
+		}
+		t.Fatalf("%s", what)
+	}
 }
